@@ -7,7 +7,7 @@ from buidl.tx import Tx, TxIn, TxOut
 from buidl.witness import Witness
 
 from vf import gen, txgen
-from vf.core import Discard, Sub, attempt, require
+from vf.core import Discard, Sub, attempt, require, time_limit
 from vf.ref import ec, sighash, txser
 
 RULE = (
@@ -274,7 +274,8 @@ def ec_hash160(b):
 
 EDITS = ["out_amount", "out_script", "out_append", "out_remove", "in_sequence", "in_outpoint",
          "in_append", "in_remove", "locktime", "version", "annex_set", "annex_clear",
-         "leaf_set", "leaf_inplace", "annex_append_inplace", "annex_pop_inplace", "sig_insert_inplace"]
+         "leaf_set", "leaf_inplace", "annex_append_inplace", "annex_pop_inplace", "sig_insert_inplace",
+         "p2tr_annex_spend", "p2tr_annex_spend"]
 
 
 def op_strategy():
@@ -282,7 +283,9 @@ def op_strategy():
                   st.integers(0, 5), st.sampled_from(HT_TAP))
     e = st.tuples(st.just("e"), st.sampled_from(EDITS), st.integers(0, 5),
                   st.integers(0, 0xFFFFFFFF))
-    return st.one_of(q, q, e)
+    # "v": the input is verified (whatever the verdict); verification is a read-only use of the object
+    v = st.tuples(st.just("v"), st.just(""), st.integers(0, 5), st.just(0))
+    return st.one_of(q, q, e, v)
 
 
 @st.composite
@@ -371,6 +374,16 @@ def check_hist(case, ctx):
             require(as_bytes(got) == ref,
                     f"history/{fam}:stale_or_wrong_digest" + ("_after_edit" if edited_after_query else ""),
                     f"ops={case['ops']!r}"[:400])
+        elif op[0] == "v":
+            j = op[2] % len(txd["ins"])
+            _, annex = split_witness(txd["ins"][j]["witness"])
+            with time_limit(60):
+                st_, ok = attempt(t.verify_input, j)
+            ctx.label("verify_between_queries")
+            if annex is not None and spent[j]["spk"][:1] == [0x51]:
+                ctx.label("verify_p2tr_input_with_annex")
+            if queried:
+                edited_after_query = True  # a later query of the same family is a re-query after a use
         else:
             _, kind, i, v = op
             if queried:
@@ -461,6 +474,20 @@ def check_hist(case, ctx):
                 if annex is not None:
                     t.tx_ins[j].witness.items.pop()
                     txd["ins"][j]["witness"].pop()
+            elif kind == "p2tr_annex_spend":
+                # the input becomes a taproot spend carrying an annex (key path, or script path over a leaf)
+                j = i % len(txd["ins"])
+                spk = [0x51, bytes(case["ikey"])]
+                a = b"\x50" + v.to_bytes(4, "big")[: 1 + v % 4]
+                if v % 2 and leaves:
+                    sb, cb = leaves[(v >> 1) % 2]
+                    w = [b"\x0b" * 64, sb, cb, a]
+                else:
+                    w = [b"\x0b" * 64, a]
+                spent[j]["spk"] = list(spk)
+                t.tx_ins[j]._script_pubkey = Script(list(spk))
+                txd["ins"][j]["witness"] = list(w)
+                t.tx_ins[j].witness = Witness(list(w))
             elif kind == "sig_insert_inplace":
                 j = i % len(txd["ins"])
                 if len(txd["ins"][j]["witness"]) >= 2:
@@ -483,6 +510,7 @@ SUBS = [
         nontrivial_rule="hash type != ALL or more than one input"),
     Sub("history_independence", check_hist, strategy=lambda tier: hist_cases(), stateful=True,
         budget={"quick": 8000, "thorough": 300000},
-        required=["edit:" + e for e in EDITS] + ["query_edit_query", "script_path_query", "inplace_leaf_replaced"],
+        required=["edit:" + e for e in EDITS] + ["query_edit_query", "script_path_query", "inplace_leaf_replaced",
+                                                    "verify_between_queries", "verify_p2tr_input_with_annex"],
         nontrivial_rule="history in which an algorithm family is queried, the tx edited, and the family queried again"),
 ]
